@@ -381,6 +381,12 @@ def explore(mod, tier, seed, nproc=None, cap_s=None, log=print):
                             p1.terminate()
                             p1.join()
                     if outs[0] != outs[1]:
+                        if getattr(mod, 'NONDETERMINISM_IS_VIOLATION', False):
+                            # for the property "results depend only on arguments and seed" this IS the violation: the checkers of that module
+                            # draw nothing themselves, so two fresh processes that disagree on one case have met a library call with a hidden input
+                            total.viol.append({'clause': 'repeat.differs', 'case': fc, 'tags': ['same'], 'history': [fc],
+                                               'detail': 'one case of stratum %s gives different observations in two fresh processes' % st.name})
+                            continue
                         raise RuntimeError('harness nondeterminism: two executions of the same case differ in stratum %s' % st.name)
                     log('  note: a case of stratum %s gives different observations when repeated in one process but not from a fresh process: '
                         'the library keeps state between calls' % st.name)
